@@ -226,8 +226,10 @@ fn draw_targets(rng: &mut Rng, x: &Mat, grown: bool, is32: bool) -> (Vec<f64>, &
             "offset"
         } else if r < 0.87 {
             "few-values"
-        } else if r < 0.96 {
+        } else if r < 0.92 {
             "negative"
+        } else if r < 0.97 {
+            "mixed-magnitudes"
         } else {
             "constant"
         }
@@ -250,6 +252,8 @@ fn draw_targets(rng: &mut Rng, x: &Mat, grown: bool, is32: bool) -> (Vec<f64>, &
             "offset" => base + rng.normal(),
             "few-values" => vals[rng.below(3)],
             "negative" => -10.0 * rng.normal().abs() - 1.0,
+            // a few targets nine orders of magnitude above the rest (a mean computed as total minus part would cancel)
+            "mixed-magnitudes" => (3.0 + 4.0 * rng.f()) * if rng.bool(0.12) { 1e9 } else { 1.0 },
             _ => cst,
         };
         y.push(if is32 { v as f32 as f64 } else { v });
